@@ -1,10 +1,18 @@
 use crate::rt::Ctx;
 
+pub mod acct;
+pub mod c02;
+pub mod c05;
+pub mod c06;
+pub mod c06_shell;
 pub mod c15;
 
 /// Runs the check for `ctx.id`; returns the evidence level, or None for an unknown id.
 pub fn run(ctx: &Ctx) -> Option<&'static str> {
     match ctx.id.as_str() {
+        "C02" => Some(c02::run(ctx)),
+        "C05" => Some(c05::run(ctx)),
+        "C06" => Some(c06::run(ctx)),
         "C15" => Some(c15::run(ctx)),
         _ => None,
     }
